@@ -165,6 +165,15 @@ def entries():
     add('intersection', 2, lambda a, b: etl.intersection(etl.cut(a, 'k'), etl.cut(b, 'k')), B, K)
     add('recordcomplement', 2, lambda a, b: etl.recordcomplement(etl.cut(a, 'k'), etl.cut(b, 'k')), B, K, H)
     add('diff', 2, lambda a, b: etl.diff(etl.cut(a, 'k'), etl.cut(b, 'k'))[0], B, K)
+    # presorted set operations over two lazily derived, sorted views of the same source (n ascending)
+    add('complement(presorted,strict)', 1, lambda a, b: etl.complement(etl.cut(a, 'n'), etl.select(etl.cut(a, 'n'), lambda r: r[0] % 20 == 0),
+                                                                          presorted=True, strict=True), S, need=lambda k: 4 * k + 4)
+    add('complement(presorted)', 1, lambda a, b: etl.complement(etl.cut(a, 'n'), etl.select(etl.cut(a, 'n'), lambda r: r[0] % 20 == 0),
+                                                                   presorted=True), S, need=lambda k: 4 * k + 4)
+    add('intersection(presorted)', 1, lambda a, b: etl.intersection(etl.cut(a, 'n'), etl.select(etl.cut(a, 'n'), lambda r: r[0] % 20 == 0),
+                                                                       presorted=True), S, need=lambda k: 4 * k + 4)
+    add('mergesort(presorted)', 1, lambda a, b: etl.mergesort(a, a, key='n', presorted=True), S, need=lambda k: k + 2)
+    add('addcolumn(index=1)', 1, lambda a, b: etl.addcolumn(a, 'z', [1, 2, 3], index=1), S)
     add('hashcomplement', 2, lambda a, b: etl.hashcomplement(etl.cut(a, 'k'), etl.cut(b, 'k')), S, 'probe-left', need=lambda k: k + 5)
     add('hashintersection', 2, lambda a, b: etl.hashintersection(etl.cut(a, 'k'), etl.cut(b, 'k')), S, 'probe-left', need=lambda k: k + 2, kmax=5)   # only 5 probe rows have a partner
     # --- dedup
